@@ -56,6 +56,23 @@ Print M3.
 """
 
 
+SEQ_V = """From Verif Require Import Base.Str Expand.Fields Expand.Read.
+Open Scope N_scope.
+Definition seqs : list (list (option str * str * Z * bool) * list (res (list str))) := %s.
+Fixpoint sl_eqb (a b : list str) : bool :=
+  match a, b with [], [] => true | x :: a', y :: b' => str_eqb x y && sl_eqb a' b' | _, _ => false end.
+Definition rsl_eqb (a b : res (list str)) : bool :=
+  match a, b with Panic, Panic => true | Ok x, Ok y => sl_eqb x y | _, _ => false end.
+Fixpoint rl_eqb (a b : list (res (list str))) : bool :=
+  match a, b with [], [] => true | x :: a', y :: b' => rsl_eqb x y && rl_eqb a' b' | _, _ => false end.
+Fixpoint mism (i : nat) (cs : list (list (option str * str * Z * bool) * list (res (list str)))) : list nat :=
+  match cs with [] => []
+  | (calls, want) :: rest => if rl_eqb (read_seq [] calls) want then mism (S i) rest else i :: mism (S i) rest end.
+Definition M := Eval vm_compute in mism 0 seqs.
+Print M.
+"""
+
+
 def idx(out, name):
     m = re.search(name + r"\s*=\s*(\[[^\]]*\])", out)
     if not m:
@@ -66,13 +83,14 @@ def idx(out, name):
 def run(ctx):
     ctx.coq_props()
     quick = ctx.tier == "quick"
-    n_gen = 1000 if quick else 12000
-    n_wild = 400 if quick else 6000
+    n_gen = 800 if quick else 12000
+    n_wild = 300 if quick else 6000
+    n_seq = 150 if quick else 2500
     binp = ctx.go_build("c23")
     if not binp:
         return
     streams = {}
-    for mode, n in (("gen", n_gen), ("wild", n_wild), ("pinned", 0)):
+    for mode, n in (("gen", n_gen), ("wild", n_wild), ("seq", n_seq), ("pinned", 0)):
         rc, rows, err = ctx.jsonl([binp, mode, "-seed", str(ctx.seed), "-n", str(n)], timeout=1500)
         if rc != 0 or not rows:
             ctx.broken.append(("harness-run", "c23 %s failed rc=%d %s" % (mode, rc, err[-800:])))
@@ -80,7 +98,8 @@ def run(ctx):
         streams[mode] = rows
     ctx.rule = ("IFS drawn from unset/empty/default/whitespace/non-whitespace/mixed/multi-byte/backslash values; input of 1..4 lines of "
                 "0..8 characters (40% IFS characters at any position, backslashes, backslash-newline continuations, with or without a "
-                "final newline) read from a file; -r or not; 0..4 names or -a; wild stream inserts invalid UTF-8 (no bash oracle there: "
+                "final newline) read from a file; -r or not; 0..4 names or -a; seq stream: 2..3 such reads run one after the other by ONE bash, ONE Runner and ONE expand.Config while "
+                "IFS changes in between (custom value, then unset / empty / another value); wild stream inserts invalid UTF-8 (no bash oracle there: "
                 "no panic + bytes preserved); non-trivial = distinct (IFS, input, flags, names) whose line holds an IFS character or a backslash")
     no_oracle = 0
     for mode, rows in streams.items():
@@ -93,13 +112,14 @@ def run(ctx):
             if r.get("no_oracle"):
                 no_oracle += 1
             for cl in r.get("fails") or []:
-                ctx.fail(cl, {"script": r["script"], "input_hex": r["input_hex"]}, r.get("class") or None,
+                ctx.fail(cl, {"script": r.get("seq_script") or r["script"], "step": r.get("seq_pos", 0), "input_hex": r["input_hex"]},
+                         r.get("class") or None,
                          {"interp": r["interp"], "bash": r["bash"]})
     ctx.extra["cases_without_bash_oracle"] = no_oracle
     for r in streams["gen"][:3]:
         ctx.sample({"script": r["script"], "input_hex": r["input_hex"], "go": r["interp"], "bash": r["bash"]})
     # ---- code leg (and Spec evaluated on the same cases)
-    rows = [r for m in ("gen", "pinned") for r in streams[m] if r["modelled"]]
+    rows = [r for m in ("gen", "seq", "pinned") for r in streams[m] if r["modelled"]]
     mism, spec_mism = [], []
     total_rf = total_bi = 0
     for sh in range(0, len(rows), 300):
@@ -150,6 +170,31 @@ def run(ctx):
             spec_mism.append({"what": "Spec vs ReadFields", "ifs_hex": r["ifs_hex"], "line": r["line"], "n": n, "raw": r["raw"]})
     ctx.leg("code:expand.ReadFields + read builtin vs Expand/Read.v (vm_compute in kernel)", total_rf + total_bi, mism)
     ctx.leg("spec:Expand/Read.v spec_read_fields vs expand.ReadFields on the same cases", total_rf, spec_mism)
+    # ---- code leg 2: sequences of ReadFields calls on ONE expand.Config with a changing environment vs read_seq
+    groups = {}
+    for r in streams["seq"]:
+        groups.setdefault(r["seq"], []).append(r)
+    seqs = [g for g in groups.values() if all(r["modelled"] for r in g)]
+    smism = []
+    for sh in range(0, len(seqs), 400):
+        part = seqs[sh:sh + 400]
+        items = []
+        for g in part:
+            calls, wants = [], []
+            for r in g:
+                oifs = "Some " + nl(r["ifs"]) if r["ifs_set"] else "None"
+                for n, got in zip(r["rf_n"], r["rf"]):
+                    calls.append("(%s,%s,(%d)%%Z,%s)" % (oifs, nl(r["line"]), n, cb(r["raw"])))
+                    wants.append("Panic" if got == "P" else "(Ok %s)" % nll(got or []))
+            items.append("(%s,%s)" % (coq_list(calls), coq_list(wants)))
+        ok, out = ctx.coq_cases("c23seq_%d_%d" % (ctx.seed, sh), SEQ_V % coq_list(items))
+        m = idx(out, "M")
+        if not ok or m is None:
+            ctx.broken.append(("correspondence:code-eval", "coqc on generated sequences failed: " + out[-800:]))
+            return
+        for i in m:
+            smism.append({"script": part[i][0]["seq_script"], "go": [r["rf"] for r in part[i]]})
+    ctx.leg("code:sequences of ReadFields on one expand.Config vs read_seq (vm_compute in kernel)", len(seqs), smism)
     ctx.assumptions += [
         "strings are modelled as lists of code points; the code leg feeds valid UTF-8 only (invalid bytes: no panic + bytes preserved)",
         "bash 5.2 is not consulted where it misbehaves itself: input ending inside an escape (leaves \\001), invalid UTF-8, "
